@@ -8,6 +8,7 @@
   sizes and initial `.grad`s.
 -/
 import Mathlib.Algebra.Ring.Defs
+import Mathlib.Algebra.Field.Defs
 import TjdModel.Autojac.MtlSpec
 import TjdLemmas.AutojacLemmas
 import TjdLemmas.MtlLemmas
@@ -176,5 +177,29 @@ theorem mtl_constant_row_combination (E : Engine α) (losses features shared : L
   rw [if_neg (by simpa using hlen), ncols_of_rows _ _ hne hrows, combine_def]
   unfold mtlJac
   rw [List.zipWith_map_right]
+
+/-- `Mean()` on the shared parameters: the gradient of the mean of the losses, `(1/T) Σ_i ∇ losses[i]`,
+    back-propagated through the features -/
+theorem mtl_mean_row_combination {β : Type} [DivisionRing β] (E : Engine β) (losses features shared : List Key)
+    (hl : losses ≠ []) (hE : E.WF) :
+    meanAgg (mtlJac E losses features shared) =
+      .ok (vsum ((shared.map E.numel).sum)
+            (losses.map fun l => smul (1 / ((losses.length : Nat) : β)) (mtlRow E features shared l))) := by
+  have h := mtl_constant_row_combination E losses features shared
+    (List.replicate losses.length (1 / ((losses.length : Nat) : β))) (by simp) hl hE
+  have hlen : (mtlJac E losses features shared).length = losses.length := by
+    unfold mtlJac
+    simp
+  have hm : meanAgg (mtlJac E losses features shared) =
+      constAgg (List.replicate losses.length (1 / ((losses.length : Nat) : β)))
+        (mtlJac E losses features shared) := by
+    unfold meanAgg constAgg
+    rw [if_neg (by simp [hlen]), hlen]
+  rw [hm, h]
+  congr 2
+  apply List.ext_getElem
+  · simp
+  · intro i h1 h2
+    simp
 
 end Tjd.Props.C02
